@@ -102,6 +102,12 @@ class Walker:
 
 
 class C02(ProgramProperty):
+    fuzz_target = 'fuzz_ranges'
+
+    def fuzz_seeds(self):
+        from ..fuzz import program_seeds
+        return program_seeds()
+
     id = 'C02'
     technique = ('grammar-based property testing (PyGen programs under position-stressing layouts) with structural range invariants, a differential oracle '
                  '(CPython line/col positions converted to byte offsets) and generator-side own-text extents')
@@ -116,10 +122,10 @@ class C02(ProgramProperty):
         return 20000 if tier == 'quick' else 500000
 
     def avoid(self):
-        return {'C01-F1', 'C01-F2', 'C01-F3', 'C01-F4', 'C01-F22', 'C01-F23', 'C01-F24'}
+        return {'C01-F1', 'C01-F2', 'C01-F3', 'C01-F4', 'C01-F22', 'C01-F23', 'C01-F24', 'C07-F1'}
 
     def open(self):
-        return open_ids('C01') | open_ids('C02')
+        return open_ids('C01') | open_ids('C02') | ({'C07-F1'} & open_ids('C07'))
 
     def explicit_cases(self, ctx):
         if ctx.tier == 'thorough':
